@@ -43,6 +43,14 @@ def run(prop, tier, seed, work):
     registry_mc(work, res, quick)
     ncopies = 36 if quick else 400
     defs = {"Steady": struct([field(1, "default", T("i32")), field(2, "default", M(T("string"), L(T("i64")))), field(3, "optional", T("string", True))])}
+    # nested structs with declared defaults: the decoder calls their default initialiser through a cached interface value
+    dn = struct([field(1, "optional", T("i32")), field(2, "optional", T("string")), field(3, "optional", T("i64")), field(4, "default", T("i16"))], init=True)
+    dn["fields"][0]["def"] = [0, 0, 0, 77]
+    dn["fields"][1]["def"] = list(b"dflt")
+    dn["fields"][2]["def"] = [0] * 7 + [9]
+    defs["Dn"] = dn
+    defs["Sd"] = struct([field(1, "default", L(ST("Dn", True))), field(2, "default", M(T("i32"), ST("Dn", True))), field(3, "default", ST("Dn", False)),
+                         field(4, "default", L(T("string"))), field(5, "default", T("i64"))])
     for k in range(ncopies):
         defs.update(graph(k))
     U.with_defaults(defs)
@@ -75,6 +83,17 @@ def run(prop, tier, seed, work):
             threads.append([{"op": "encode", "ty": "Steady", "v": 0, "buf": {"mode": "rel", "n": 0, "extra": 0}},
                             {"op": "decode", "ty": "Steady", "from": 0, "dest": "fresh", "orig": 0},
                             {"op": "size", "ty": "Steady", "v": 0, "byval": True}])
+        # several goroutines on the SAME type with different values: by-value arguments go through a per-type
+        # pool, nested default initialisers through a per-type cached interface value
+        for ti in range(3):
+            dv = sd_value(defs, k * 7 + ti)
+            vals.append(dv)
+            vi = len(vals) - 1
+            threads.append([{"op": "encode", "ty": "Sd", "v": vi, "byval": True, "buf": {"mode": "rel", "n": 0, "extra": 0}},
+                            {"op": "decode", "ty": "Sd", "from": 0, "dest": "fresh", "orig": vi},
+                            {"op": "size", "ty": "Sd", "v": vi, "byval": True},
+                            {"op": "encode", "ty": "Sd", "v": vi, "byval": True, "buf": {"mode": "rel", "n": 0, "extra": 0}},
+                            {"op": "decode", "ty": "Sd", "from": 3, "dest": "zero", "orig": vi}])
         steps = [{"op": "encode", "ty": "Steady", "v": 0, "buf": {"mode": "rel", "n": 0, "extra": 0}},   # registers Steady first
                  {"op": "par", "threads": threads, "rounds": 3, "gomaxprocs": [2, 4, 16][k % 3]}]
         sid = "C08-par-%d" % k
@@ -82,6 +101,20 @@ def run(prop, tier, seed, work):
     suite.run_batches(res, work, [Batch("stress", defs, scen, race=True)],
                       want_props={"C08", "C01", "C02", "C03", "C04", "C16"})
     return suite.finish(res, RULE, ASSUME)
+
+
+def sd_value(defs, salt):
+    """an Sd value whose nested Dn structs alternate between all-default (every optional field omitted on the
+    wire, so the decoded value relies on the default initialiser) and distinct non-default contents"""
+    def dn(j):
+        if j % 2 == 0:
+            return U.default_struct("Dn", defs)
+        return {"f": {"1": U.be(1000 + salt * 13 + j, 4), "2": list(("s%d-%d" % (salt, j)).encode()), "3": U.be(salt * 1000003 + j, 8), "4": U.be(salt + j, 2)}, "unk": []}
+    n = 3 + salt % 4
+    return {"f": {"1": {"nil": False, "items": [{"p": 1, "v": dn(j + salt)} for j in range(n)]},
+                  "2": {"nil": False, "ents": [[U.be(j * 17 + salt, 4), {"p": 1, "v": dn(j + salt + 1)}] for j in range(n)]},
+                  "3": dn(salt), "4": {"nil": False, "items": [list(("x" * (5 + j) + str(salt)).encode()) for j in range(n + 20)]},
+                  "5": U.be(salt * 7919, 8)}, "unk": []}
 
 
 def registry_mc(work, res, quick):
